@@ -115,7 +115,7 @@ def real2_groups(tier, seed):
             for n in pick(2 if tier == "quick" else 5):
                 calls.append("run_rdivs<%s,%d>(%du, %d);" % (t, n, seed * 7 + n, rng.choice([2, 3, 7, 10])))
             if fp:
-                fns = UNARY if tier != "quick" else rng.sample(UNARY, 9)
+                fns = UNARY      # every function in both tiers (one size each in quick)
                 for fn in fns:
                     for n in pick(1 if tier == "quick" else 3):
                         calls.append('REXPR2_CASE(%s, %d, %d, 7, "%s", %du, %s(A));' % (t, n, rng.randint(0, 3), fn, seed * 13 + len(calls), fn))
